@@ -157,6 +157,14 @@ fn oracle(c: &Case) -> Option<(String, String)> {
 
 fn witness(c: &Case) -> Value { let (_, b) = build(c); json!({"value": brief_v(&c.v), "case": format!("{:?}", c).chars().take(400).collect::<String>(), "compressed_twin": show(&b[..b.len().min(1500)])}) }
 
+/// Re-run a stored witness (choice tape) against the current tree.
+pub fn replay(prefix: &str, tape: &[u32], _params: &Value) -> Option<Option<(String, String)>> {
+    if prefix != "twin" { return None; }
+    let mut s = Src::replay(tape);
+    let c = gen_case(&mut s);
+    Some(oracle(&c))
+}
+
 pub fn run(run: &Run) {
     run.rule("twin documents per value (every Primitive kind incl. integers, reals, names, null, booleans, references, nested containers): stored as ordinary indirect object vs member of an object stream at first/middle/last position, with/without trailing white-space, /First tight or padded, object stream unfiltered or with 1-2 filters from {ASCIIHex, ASCII85, RunLength, LZW, Flate}; plus a stream whose /Length is direct, a reference to a direct integer, or to an integer inside an object stream. resolve() must agree between twins and with the written value; Stream::data/raw_data with the written bytes. 4 configurations. distinct_nontrivial = distinct compressed-twin files");
     run.assume("object-stream filters are encoded by the reference encoders of C05; values printed in the plain spelling");
@@ -168,7 +176,7 @@ pub fn run(run: &Run) {
             run.nontrivial(fnv(&b));
             for l in &s.labels { run.count(&format!("label:{}", l)); }
             if i < 5 { run.sample(json!({"value": brief_v(&c.v), "position": c.position, "members": c.n_members, "trailing_ws": c.trailing_ws, "filters": c.filters, "length_mode": c.length_mode})); }
-        });
+        }, json!({}));
     });
     // thorough: the same quick workload once more under the AddressSanitizer build (memory errors in the library or its dependencies)
     if !run.quick() { crate::lanes::asan_rerun(run); }
